@@ -379,7 +379,9 @@ void cstl_array_alloc(cstl_array_t * const a,
     struct cstl_raw_array * ra;
 
     cstl_array_reset(a);
-    cstl_shared_ptr_alloc(&a->ptr, sizeof(*ra) + nm * sz, NULL);
+    if (sz == 0 || nm <= (SIZE_MAX - sizeof(*ra)) / sz) {
+        cstl_shared_ptr_alloc(&a->ptr, sizeof(*ra) + nm * sz, NULL);
+    } /* else, the size in bytes can't be represented; same as failure */
 
     ra = cstl_shared_ptr_get(&a->ptr);
     if (ra != NULL) {
